@@ -776,10 +776,34 @@ static std::string run_gencorpus(const CaseSpec &cs) {
     for (auto &x : kinds) key += x + ",";
     const uint16_t flags = er.bytes.size() > 10 ? static_cast<uint8_t>(er.bytes[10]) : 0;
     key += (flags & 0x80) ? "meta" : "";
+    // structure of the attribute connectivity (which attribute decoders exist and how they relate to the position
+    // connectivity decides which decoder branches a corruption can reach): number of attributes, how many of them
+    // are seam-free / seamed relative to the positions, and whether there are >= 2 points per position entry
+    const int pa = cs.g.pos_att();
+    if (cs.g.is_mesh && pa >= 0 && cs.g.npoints > 0) {
+      int seamfree = 0, seamed = 0;
+      std::set<uint32_t> pos_used;
+      for (uint32_t p = 0; p < cs.g.npoints; ++p) pos_used.insert(cs.g.atts[pa].value_of_point(p));
+      for (size_t ai = 0; ai < cs.g.atts.size(); ++ai) {
+        if (static_cast<int>(ai) == pa) continue;
+        std::map<uint32_t, uint32_t> m;
+        bool seam = false;
+        for (uint32_t p = 0; p < cs.g.npoints && !seam; ++p) {
+          auto it = m.emplace(cs.g.atts[pa].value_of_point(p), cs.g.atts[ai].value_of_point(p));
+          seam = it.first->second != cs.g.atts[ai].value_of_point(p);
+        }
+        (seam ? seamed : seamfree)++;
+      }
+      key += ";atts=" + std::to_string(std::min<size_t>(cs.g.atts.size(), 4)) + ";seamfree=" + std::to_string(std::min(seamfree, 2)) +
+             ";seamed=" + std::to_string(std::min(seamed, 2)) + (cs.g.npoints >= 2 * pos_used.size() ? ";points>=2x" : "");
+    }
   }
   if (per_class[key]++ >= per_class_limit) return "";
   char name[512];
-  snprintf(name, sizeof name, "%s/s%016llx.drc", env("VERIF_CORPUS_OUT", "/tmp"), (unsigned long long)hash_tokens(to_tokens(cs)));
+  // (the name starts with a hash of the class key so that the driver can pick across classes)
+  snprintf(name, sizeof name, "%s/s%08x_%016llx.drc", env("VERIF_CORPUS_OUT", "/tmp"),
+           static_cast<unsigned>(std::hash<std::string>()(key) & 0xffffffffu),
+           (unsigned long long)hash_tokens(to_tokens(cs)));
   FILE *f = fopen(name, "wb");
   if (f) {
     fwrite(er.bytes.data(), 1, er.bytes.size(), f);
